@@ -194,6 +194,14 @@ func runCheck(id, tier, repo, dump, only string, list bool) int {
 			all = append(all, r.Obls...)
 		}
 	}
+	// obligation names are identifiers (file names, known findings): they must be unique
+	seenName := map[string]int{}
+	for _, o := range all {
+		seenName[o.Name]++
+		if k := seenName[o.Name]; k > 1 {
+			o.Name = fmt.Sprintf("%s#dup%d", o.Name, k)
+		}
+	}
 	if dump != "" {
 		re := regexp.MustCompile(dump)
 		for _, o := range all {
